@@ -1,6 +1,7 @@
 package props
 
 import (
+	"bufio"
 	"bytes"
 	"context"
 	"encoding/csv"
@@ -12,10 +13,12 @@ import (
 	"os"
 	"path/filepath"
 	"reflect"
+	"regexp"
 	"strconv"
 	"strings"
 	"sync"
 	"sync/atomic"
+	"testing/iotest"
 	"time"
 
 	"github.com/cinar/indicator/v2/asset"
@@ -180,6 +183,23 @@ func (g *eofGuard) Read(p []byte) (int, error) {
 	return n, err
 }
 
+// docReader hands a document to a reader under test as one of the reader
+// types a caller may hold (chosen by the document, so that a case replays):
+// the reader's behaviour must not depend on which one it is.
+func docReader(doc []byte) io.Reader {
+	switch gen.Hash64(string(doc)) % 6 {
+	case 0:
+		return bytes.NewBuffer(append([]byte(nil), doc...))
+	case 1:
+		return strings.NewReader(string(doc))
+	case 2:
+		return bufio.NewReader(&eofGuard{r: bytes.NewReader(doc)})
+	case 3:
+		return iotest.OneByteReader(&eofGuard{r: bytes.NewReader(doc)})
+	}
+	return &eofGuard{r: bytes.NewReader(doc)}
+}
+
 // countingHandler discards log records but bounds their number per document:
 // a reader logs an error and stops, so thousands of error records for one
 // document mean it is looping on the same malformed input (a logical progress
@@ -222,7 +242,7 @@ func csvCase[T any](cc *run.Case, census *mon.Census, typ string, doc []byte, ha
 			return false
 		}
 	} else {
-		rows = c.ReadFromReader(&eofGuard{r: bytes.NewReader(doc)})
+		rows = c.ReadFromReader(docReader(doc))
 	}
 	got := helper.ChanToSlice(rows) // blocks for ever if the stream is never closed: runtime deadlock report
 	cc.Count("csv_documents", 1)
@@ -337,6 +357,8 @@ func gF32(r *gen.Rand) string {
 }
 func gInt64(r *gen.Rand) string { return strconv.FormatInt(int64(r.U64()>>1), 10) }
 
+var dateShaped = regexp.MustCompile(`\b\d{4}-\d{2}-\d{2}\b`)
+
 // corrupt applies one grammar-aware corruption to a valid document.
 func corrupt(r *gen.Rand, doc []byte) []byte {
 	s := string(doc)
@@ -347,7 +369,20 @@ func corrupt(r *gen.Rand, doc []byte) []byte {
 		}
 		return r.Intn(len(lines))
 	}
-	switch r.Intn(14) {
+	switch r.Intn(15) {
+	case 14: // a well-shaped date that is not in the calendar
+		var at []int
+		for i, l := range lines {
+			if dateShaped.MatchString(l) {
+				at = append(at, i)
+			}
+		}
+		if len(at) > 0 {
+			i := at[r.Intn(len(at))]
+			loc := dateShaped.FindStringIndex(lines[i])
+			bad := []string{"2023-02-30", "2023-13-01", "2021-04-31", "2020-00-10", "2021-02-29", "2022-06-00", "2022-11-31"}[r.Intn(7)]
+			lines[i] = lines[i][:loc[0]] + bad + lines[i][loc[1]:]
+		}
 	case 0: // truncate anywhere
 		return doc[:r.Intn(len(doc)+1)]
 	case 1: // delete a field from a row
@@ -469,7 +504,7 @@ func jsonCase[T any](cc *run.Case, census *mon.Census, typ string, doc []byte, e
 	cc.Desc(map[string]any{"reader": "json", "type": typ, "doc": string(doc)})
 	logCount.Store(0)
 	census.Begin()
-	got := helper.ChanToSlice(helper.JSONToChanWithLogger[T](&eofGuard{r: bytes.NewReader(doc)}, discardLogger))
+	got := helper.ChanToSlice(helper.JSONToChanWithLogger[T](docReader(doc), discardLogger))
 	cc.Count("json_documents", 1)
 	want := refJSON[T](doc)
 	detail := map[string]any{"type": typ, "doc": string(doc), "got": fmt.Sprint(got), "want": fmt.Sprint(want)}
@@ -504,6 +539,18 @@ type recBody struct {
 	io.Reader
 	mu     *sync.Mutex
 	closed *int
+	ctx    context.Context
+}
+
+// Read behaves as a net/http response body does: once the context of its
+// request is done, the body cannot be read any further.
+func (b recBody) Read(p []byte) (int, error) {
+	if b.ctx != nil {
+		if err := b.ctx.Err(); err != nil {
+			return 0, err
+		}
+	}
+	return b.Reader.Read(p)
 }
 
 func (b recBody) Close() error {
@@ -555,13 +602,13 @@ func (t *fakeTransport) RoundTrip(req *http.Request) (*http.Response, error) {
 		return &http.Response{
 			StatusCode: t.status, Status: fmt.Sprintf("%d %s", t.status, http.StatusText(t.status)),
 			Proto: "HTTP/1.1", ProtoMajor: 1, ProtoMinor: 1, Header: http.Header{"Content-Type": {"application/json"}},
-			Body: recBody{Reader: &endlessReader{prefix: t.body}, mu: &t.mu, closed: &t.closed}, ContentLength: -1, Request: req,
+			Body: recBody{Reader: &endlessReader{prefix: t.body}, mu: &t.mu, closed: &t.closed, ctx: req.Context()}, ContentLength: -1, Request: req,
 		}, nil
 	}
 	return &http.Response{
 		StatusCode: t.status, Status: fmt.Sprintf("%d %s", t.status, http.StatusText(t.status)),
 		Proto: "HTTP/1.1", ProtoMajor: 1, ProtoMinor: 1, Header: http.Header{"Content-Type": {"application/json"}},
-		Body: recBody{Reader: &eofGuard{r: bytes.NewReader(t.body)}, mu: &t.mu, closed: &t.closed}, ContentLength: int64(len(t.body)), Request: req,
+		Body: recBody{Reader: &eofGuard{r: bytes.NewReader(t.body)}, mu: &t.mu, closed: &t.closed, ctx: req.Context()}, ContentLength: int64(len(t.body)), Request: req,
 	}, nil
 }
 
@@ -1009,6 +1056,10 @@ func c19(ctx *run.Ctx) {
 					bodies = append(bodies, withNull, omitted)
 				}
 			}
+			// a long history: far more than any buffer between the body and the
+			// stream holds, whole and cut in the middle of a record
+			long := tiingoDoc(gen.New(11, "long"), 160)
+			bodies = append(bodies, long, long[:len(long)*2/3])
 			valid := tiingoDoc(cc.R, 2)
 			for cut := 0; cut <= len(valid); cut += 7 {
 				bodies = append(bodies, valid[:cut])
